@@ -230,7 +230,7 @@ PROPS = {
         "rule": "cases = transitions (pre-state, action) of the bounded TLC instance replayed against the contracts; "
                 "distinct = distinct (abstract pre-state, action) pairs; every one changes or probes message status",
         "assumptions": ["soroban-env-host test mode implements on-chain semantics (rollback, require_auth, crypto)",
-                        "bounds: 3 message keys x 2 contents, batches of <= 2 messages, one signer set"],
+                        "bounds: 4 message keys (two sharing an id across chains) with 7 contents, batches of <= 2 messages, one signer set"],
     },
     "C03": {
         "title": "Rotation installs only well-formed sets, authorised by the latest signers",
@@ -446,7 +446,7 @@ PROPS = {
         ],
         "level_text": "TLC proves gate (effect only on an unexecuted approval naming this app, chain, id, source address and payload hash), completeness, exactly-once (the same delivery is refused in the post-state) and no effect on failure on every transition of a finite instance (all interleavings of approvals deviating in one respect each and deliveries to both apps); all transitions are executed against the shipped example contract and a minimal app using AxelarExecutableInterface::validate_message, on the real gateway.",
         "rule": "cases = transitions of the bounded TLC instance replayed against the contracts; distinct = distinct (approval-table state, action) pairs",
-        "assumptions": ["soroban-env-host test mode implements on-chain semantics", "bounds: 3 message keys, 7 approval contents, 2 apps"],
+        "assumptions": ["soroban-env-host test mode implements on-chain semantics", "bounds: 3 message keys, 9 approval contents, 2 apps, delivered payloads of 0, 2 and 32 bytes incl. the hash of an approved payload"],
     },
     "C10": {
         "title": "ITS codec is exact canonical Solidity ABI and never misdecodes",
